@@ -179,10 +179,12 @@ pub struct LineCfg {
     pub n_range: i64,
     /// number of distinct key values (the first five are KEYS, further ones are generated names)
     pub keys: usize,
+    /// percentage of REAL values that are a signed zero (0.0 / -0.0 compare equal but print differently)
+    pub zero_pct: usize,
 }
 
 pub fn gen_line_cfg(rng: &mut Rng) -> LineCfg {
-    LineCfg { null_pct: *rng.pick(&[0, 10, 25, 50]), bad_n_pct: *rng.pick(&[0, 0, 10]), n_range: *rng.pick(&[3, 10, 1000, 1_000_000]), keys: rng.range(1, 5) as usize }
+    LineCfg { null_pct: *rng.pick(&[0, 10, 25, 50]), bad_n_pct: *rng.pick(&[0, 0, 10]), n_range: *rng.pick(&[3, 10, 1000, 1_000_000]), keys: rng.range(1, 5) as usize, zero_pct: 0 }
 }
 
 /// i-th key value: lower-case letters only (the table patterns accept `[a-z ]+`)
@@ -211,7 +213,13 @@ pub fn gen_line_spec(rng: &mut Rng, cfg: &TableCfg, lc: &LineCfg) -> LineSpec {
     } else {
         Some(format!("{}", rng.range(-lc.n_range, lc.n_range)))
     };
-    let r = if rng.below(100) < lc.null_pct { None } else { Some(fmt_quarter(rng.range(-40, 40))) };
+    let r = if rng.below(100) < lc.null_pct {
+        None
+    } else if rng.below(100) < lc.zero_pct {
+        Some(rng.pick(&["0.0", "-0.0"]).to_string())
+    } else {
+        Some(fmt_quarter(rng.range(-40, 40)))
+    };
     let b = rng.chance(1, 2);
     let d = if cfg.with_ts && rng.below(100) >= lc.null_pct { Some((2020 + rng.below(3) as i32, 1 + rng.below(12) as u32, 1 + rng.below(28) as u32)) } else { None };
     LineSpec { k, n, r, b, d }
@@ -578,6 +586,8 @@ pub fn gen_filter(rng: &mut Rng, cfg: &TableCfg, prefix: &str) -> String {
     pool.push(format!("CASE WHEN {}n > {} THEN true ELSE {}r < 1.0 END", prefix, c, prefix));
     pool.push(format!("length({}k) >= 2 OR {}n = {}", prefix, prefix, c));
     pool.push(format!("abs({}n) <= {}", prefix, c + 1));
+    // a pattern that comes from a column (differs from row to row)
+    pool.push(format!("regexp_matches({}k, {}k)", prefix, prefix));
     pool.push(format!("'1'::int <= {}n AND {}r::text != 'x'", prefix, prefix));
     pool.push(format!("{}k IN ('{}', 'dd') AND NOT {}n IS NULL", prefix, key, prefix));
     if cfg.with_b {
@@ -680,6 +690,8 @@ pub fn agg_pool(cfg: &TableCfg, order_insensitive: bool, p: &str) -> Vec<String>
         format!("VARIANCE({}n)", p),
         format!("PERCENTILE({}n, 0.5)", p),
         format!("PERCENTILE({}r, 0.9)", p),
+        format!("PERCENTILE({}r, 0.5)", p),
+        format!("PERCENTILE({}r, 0.25)", p),
         format!("SUM({}n) + 1", p),
         format!("MAX({}n) * 2", p),
     ];
